@@ -24,6 +24,7 @@ import (
 	"fmt"
 	"io"
 	"net/http"
+	"net/url"
 	"os"
 	"path/filepath"
 	"strings"
@@ -151,7 +152,10 @@ func Load(source string) (*Schema, error) {
 				return nil, fmt.Errorf("failed to get JSON schema absolute path for %s: %w",
 					source, err)
 			}
-			source = "file://" + source
+			// a file reference is a URL: escape what is special in one, and "+"
+			// which the loader takes for an escaped blank
+			u := url.URL{Scheme: "file", Path: source}
+			source = strings.ReplaceAll(u.String(), "+", "%2B")
 		}
 	}
 
@@ -217,13 +221,12 @@ func useNumber(d *json.Decoder) *json.Decoder {
 
 // ValidateFile validates the given JSON file against the schema.
 func (s *Schema) ValidateFile(path string) error {
-	if filepath.Ext(path) == ".json" {
-		return s.validate(schema.NewReferenceLoader("file://" + path))
-	}
-
 	data, err := os.ReadFile(path)
 	if err != nil {
 		return err
+	}
+	if filepath.Ext(path) == ".json" {
+		return s.validate(schema.NewBytesLoader(data))
 	}
 	return s.ValidateData(data)
 }
